@@ -4,6 +4,7 @@
 From BBF Require Import Base.Prelude Base.Names Base.Bits Model.Table Model.Render Model.Csv
      Proofs.RenderProofs Proofs.CsvProofs.
 From Coq Require Import Sorting.Permutation.
+From BBF Require Import Spec.Sem Model.Expr Model.LibBdd Model.Bdd Model.Prog Model.Iter Model.Extra Proofs.ExtraProofs.
 
 (* on the records the reader delivers: the table is well formed, its inputs are the sorted column
    names (header names, or x_0, x_1, ...), every data record has the width of the first record and
@@ -121,6 +122,18 @@ Print Assumptions C16_entry_points_agree.
    rows out of order, four spellings, a quoted cell, a blank line, three line terminators;
    the former defects: "0,1" LF "1,0" LF keeps its first record, "a,r" LF "0,1" LF "0,0" LF and a
    header of 64 inputs without records are rejected *)
+(* the payload of DuplicateVariableName (Model/Extra.v): whenever a name is reported the import is rejected with that
+   variant, and the name is the first header cell that repeats an earlier one (nothing before it repeats) *)
+Theorem C16_duplicate_name_reported : forall rs x, dup_of_records rs = Some x ->
+  import_records rs = Err E_DuplicateVariableName /\
+  exists hdr rest pre post, header_and_data rs = Ok (true, hdr, rest) /\ removelast hdr = pre ++ x :: post /\ In x pre /\ NoDup pre.
+Proof. intros rs x H. exact (conj (dup_import rs x H) (dup_is_first_repeat rs x H)). Qed.
+Print Assumptions C16_duplicate_name_reported.
+
+Theorem C16_duplicate_name_string : forall s x, csv_duplicate_name s = Some x -> from_csv_string s = Err E_DuplicateVariableName.
+Proof. exact dup_string. Qed.
+Print Assumptions C16_duplicate_name_string.
+
 Example C16_example :
   from_csv_string [98;44;97;44;114;13;10; 48;44;49;44;84;10; 34;49;34;44;49;44;102;97;108;115;101;10;10;
                    49;44;48;44;84;114;117;101;13; 48;44;48;44;70]%N
